@@ -18,6 +18,8 @@ RULE_MODULES = {
     'CSDO': 'rules.p_csdo',
     'DICT': 'rules.p_dict',
     'SDO2': 'rules.p_sdo2',
+    'HB': 'rules.p_hb',
+    'RESET': 'rules.p_reset',
 }
 
 
@@ -35,7 +37,7 @@ def run_rule(rule, ctx, tier):
 
 PROPERTIES = {
     'C01': {
-        'rules': ['RF6', 'RF5', 'SDO', 'TMR'],
+        'rules': ['RF6', 'RF5', 'SDO', 'TMR', 'CSDO', 'SDO2'],
         'technique': 'interval abstract interpretation (widening/narrowing, guard refinement, parameter and field '
                      'invariants) for every constant-extent subscript; non-null dataflow with bounded disjunction for every '
                      'dereference of a nullable location; guard-before-use for SDO continuation handlers',
@@ -154,7 +156,7 @@ PROPERTIES = {
         'not_decided': 'sequence semantics beyond the step guards',
     },
     'C14': {
-        'rules': ['PDOCFG', 'RF6'],
+        'rules': ['PDOCFG', 'RF6', 'PDO'],
         'exhaustive': True,
         'technique': 'decision-table extraction: each PDO parameter Write function folded over valid bit x count x target '
                      'existence x access flags x new value classes; verdict = stored / refused-with-nothing-stored',
@@ -167,7 +169,7 @@ PROPERTIES = {
         'not_decided': 'interaction over write sequences beyond what the guards imply; activated PDO behaviour',
     },
     'C15': {
-        'rules': ['EMCY', 'NMT'],
+        'rules': ['EMCY'],
         'exhaustive': True,
         'technique': 'decision-table extraction over input classes, must-facts at the transmission site',
         'explanation': 'RF2: register update and EMCY frame only on a real transition (set/clear/reset, silent reset '
@@ -189,7 +191,7 @@ PROPERTIES = {
         'not_decided': 'crash-point durability and RAM/NVM equality',
     },
     'C10': {
-        'rules': ['RF3', 'NMT', 'TMR'],
+        'rules': ['RF3', 'NMT', 'TMR', 'HB', 'RESET'],
         'explanation': 'Static typestate analysis of every timer handle (create/delete/store sites, all CFG paths, '
                        'callee summaries): no armed heartbeat handle is overwritten (H1) and no function leaves a '
                        'handle holding a deleted id (H2, all handles: a stale id is how another service deletes the '
@@ -197,7 +199,7 @@ PROPERTIES = {
         'not_decided': 'tick-exact heartbeat schedule',
     },
     'C11': {
-        'rules': ['RF3'],
+        'rules': ['RF3', 'HB', 'RF5'],
         'explanation': 'Timer-handle typestate for CO_HBCONS.Tmr: re-arm deletes first, deactivation deletes, no armed '
                        'handle overwritten on any path.',
         'not_decided': 'timeout timing',
@@ -209,7 +211,7 @@ PROPERTIES = {
         'not_decided': 'emission timing multiset',
     },
     'C16': {
-        'rules': ['RF3', 'SYNC', 'PDO'],
+        'rules': ['RF3', 'SYNC', 'PDO', 'RESET'],
         'explanation': 'Timer-handle typestate for CO_SYNC.Tmr including release before re-initialisation on reset.',
         'not_decided': 'period exactness',
     },
@@ -220,7 +222,7 @@ PROPERTIES = {
         'not_decided': 'data equality',
     },
     'C20': {
-        'rules': ['RF3'],
+        'rules': ['RF3', 'RESET', 'LSS'],
         'explanation': 'Release-on-reset: every handle overwritten by a re-initialisation called from CONmtReset is '
                        'released first (requirement propagation over call chains).',
         'not_decided': 'trace equivalence',
